@@ -44,6 +44,19 @@ def gen(rng, tier):
         k = rng.choice([1, 2, 2, 3])
         cases.append({"args": [k, gen_script(rng, 4 if tier == "quick" else 5, 3 if tier == "quick" else 5)],
                       "env": sched_env(rng, budget=40000)})
+    # several fibers signalling / broadcasting WITHOUT the user mutex while several wait, on 3-4
+    # kernel threads: signallers block on the internal mutex, are resumed on another kernel
+    # thread (migration inside fiber_cond_signal), and find a waiter that has registered but not
+    # yet enqueued itself
+    for _ in range(n_cases(tier, 200, 1500)):
+        nw = rng.randrange(2, 5)
+        ns = rng.randrange(2, 4)
+        fibers = ["w"] * nw + [",".join(rng.choice(["S", "S", "B"]) for _ in range(rng.randrange(2, 5))) for _ in range(ns)]
+        rng.shuffle(fibers)
+        env = sched_env(rng, budget=60000)
+        if rng.random() < 0.5:
+            env = {"VR_SEED": rng.randrange(1, 1 << 30), "VR_SCHED": "rand", "VR_SWITCH": 2, "VR_BUDGET": 60000}
+        cases.append({"args": [rng.choice([3, 4]), "|".join(fibers)], "env": env})
     return cases
 
 
@@ -52,7 +65,7 @@ SPEC = {
         "parts": [{"name": "cond", "harness": "cond", "model": "Cond", "runtime": True, "gen": gen,
                    "nontrivial": lambda s: s["hist"].get("xchg C.tail", 0) >= 1 and
                    (s["hist"].get("fsub C.count", 0) + s["hist"].get("xchg C.count", 0)) >= 1}],
-        "rule": "cases = (script of 2-5 fibers + the sweeper fiber doing wait / signal / broadcast with and without the user mutex / yield on one condition variable, 1-3 kernel threads, scheduler kind+seed) from VERIF_SEED; distinct = different (script, sha1 of access sequence); non-trivial = at least one waiter was enqueued and at least one signal or broadcast examined the waiter count",
+        "rule": "cases = (script of 2-5 fibers + the sweeper fiber doing wait / signal / broadcast with and without the user mutex / yield on one condition variable, 1-3 kernel threads, plus a family of 2-4 waiters and 2-3 unlocked signallers/broadcasters on 3-4 kernel threads, scheduler kind+seed) from VERIF_SEED; distinct = different (script, sha1 of access sequence); non-trivial = at least one waiter was enqueued and at least one signal or broadcast examined the waiter count",
         "trusted_base": [
             "the cond's waiter queue and the two mutexes' waiter queues are kept abstractly (ghost order + linked flags), validated against every logged access; adequacy for all interleavings is C15 (Mpsc.pop_is_next_in_order / empty_justified)",
             "the internal mutex I and the user mutex M are the C03 model (Mutex.step) itself, replayed on every I/M access; C05's theorems use only the small mutex invariant proved in Proof/Cond.lean (Cond.MI)",
